@@ -1,5 +1,6 @@
 """Shared case construction / execution for the molecule-based monitors (C01, C02, C03, C06, C09, C10, C11 ...)."""
 import collections
+import copy
 
 import networkx as nx
 
@@ -70,7 +71,7 @@ def cut_features(g, part, case):
     return f
 
 
-def random_cut_case(rng, max_heavy, kinds=('$', '><'), max_parts=6, mol_kw=None, render_opts=None, ctor=None):
+def random_cut_case(rng, max_heavy, kinds=('$', '><'), max_parts=6, mol_kw=None, render_opts=None, ctor=None, plain_names=False):
     ringy = rng.random() < 0.35
     if ringy:
         kw = dict(p_ring=0.9, p_arom=rng.choice([0.2, 0.6]))
@@ -113,7 +114,12 @@ def random_cut_case(rng, max_heavy, kinds=('$', '><'), max_parts=6, mol_kw=None,
     rng.shuffle(base_nodes)
     feats = cut_features(g, part, case)
     feats.add('ctor_' + ctor)
-    return dict(kind='cut', base_ast=ast, base_string=G.to_string(ast),
+    names = None
+    if rng.random() < 0.3 and nparts <= len(NAME_POOL) and not plain_names:
+        # fragment names as people write them: element-like, lower case, starting with a digit, prefixes of each other
+        names = dict(zip(('F%d' % i for i in range(nparts)), rng.sample(NAME_POOL, nparts)))
+        feats.add('diverse_fragment_names')
+    out = dict(kind='cut', base_ast=ast, base_string=G.to_string(ast),
                 frag_string='{' + ','.join('#%s=%s' % kv for kv in items) + '}',
                 base_graph={'nodes': [[n, case['base'].nodes[n]['fragname']] for n in base_nodes],
                             'edges': [[a, b, d['order']] for a, b, d in case['base'].edges(data=True)]},
@@ -121,6 +127,31 @@ def random_cut_case(rng, max_heavy, kinds=('$', '><'), max_parts=6, mol_kw=None,
                 features=sorted(feats), nheavy=len(g), nfrag=nparts, ncuts=len(case['cuts']),
                 frag_atoms={name: atoms for name, atoms in case['atom_orders'].items()},
                 base_order=pre)
+    return rename_fragments(out, names) if names else out
+
+
+
+NAME_POOL = ['A', 'B', 'PEO', '2VP', '12', 'C', 'H', 'O', 'Cl', 'c', 'n', 'N1', 'b2', 'PS', 'PS1', 'OH', 'Me', 'X', 'Na', 'mon', 'x0', '0', 'S', 'Br']
+
+
+def rename_fragments(case, names):
+    """the same case with other fragment names (names: old -> new, injective)"""
+    import re
+
+    def sub(text):
+        return re.sub(r'#(F\d+)(?=[=\];])', lambda m: '#' + names.get(m.group(1), m.group(1)), text)
+    out = dict(case)
+    out['base_string'] = sub(case['base_string'])
+    out['frag_string'] = sub(case['frag_string'])
+    out['alt_base_strings'] = [sub(a) for a in case.get('alt_base_strings', [])]
+    ast = copy.deepcopy(case['base_ast'])
+    for e, _, _, _ in G._flat(ast):
+        e['name'] = names.get(e['name'], e['name'])
+    out['base_ast'] = ast
+    out['base_graph'] = {'nodes': [[n, names.get(nm, nm)] for n, nm in case['base_graph']['nodes']], 'edges': case['base_graph']['edges']}
+    out['frag_atoms'] = {names.get(k, k): v for k, v in case['frag_atoms'].items()}
+    out['features'] = sorted(set(case['features']) | {'diverse_fragment_names'})
+    return out
 
 
 def case_text(case):
